@@ -417,9 +417,9 @@ open Litep2pVerif Litep2pVerif.Node
 /-- A configuration with every kind of protocol (used by the non-vacuity examples). -/
 def sample : Config :=
   { keepAliveMs := some 600, limits := some (some 2, none), listen := [1, 2],
-    notif := [⟨"/n/a", 1024, "0102", ["/n/old"], 'a'⟩],
+    notif := [⟨"/n/a", 1024, "0102", ["/n/old"], 'a', some 64, some 64, none⟩],
     rr := [⟨"/r/a", 256, 800, ["/r/old"], none⟩, ⟨"/r/b", 64, 800, [], some 1⟩],
-    user := [⟨"/u/a", .varint none⟩], kad := [⟨[], none⟩], ping := some 1, identify := true, bitswap := true,
+    user := [⟨"/u/a", .varint none⟩], kad := [⟨[], none, []⟩], ping := some 1, identify := true, bitswap := true,
     known := some [(0, [.listen 0, .closed, .quic, .wrongPeer 0, .noPeer 0])] }
 
 /-- Every configured request-response protocol is registered under its own name with its OWN codec and maximum message
@@ -443,6 +443,15 @@ example : ∃ w, Node.new sample = .ok w ∧
 example : Node.new { sample with rr := [⟨"/n/a", 64, 800, [], none⟩] } = .panic := by decide
 example : Node.new { sample with rr := [⟨"/r/a", 64, 800, ["/n/old"], none⟩] } = .panic := by decide
 
+/-- Every configured request-response protocol object is constructed with its OWN request timeout and its own bound on
+concurrent inbound requests. -/
+theorem request_response_config_reaches_protocol (c : Config) :
+    ∀ p ∈ (build c).rr, Note.rr p.name p.timeoutMs p.maxInbound ∈ notes (build c) :=
+  fun _ hp => notes_rr_mem _ hp
+
+example : Note.rr "/r/b" 800 (some 1) ∈ notes (build sample) := by decide
+
 end Litep2pVerif.Props.C13.Wiring
 
 #print axioms Litep2pVerif.Props.C13.Wiring.registered_with_own_codec_and_size
+#print axioms Litep2pVerif.Props.C13.Wiring.request_response_config_reaches_protocol
